@@ -9,6 +9,13 @@ CLAIMS = {
     },
 }
 
+CLAIMS["C15"] = {
+    "decides": "interval (+known trailing-zero bits) abstract interpretation of the variable-length integer codecs: every value class of the CFF/T1/T2 integer encoders, uint32var and 255UInt16 writers lands in exactly one reader class, the reader consumes the emitted width and its image contains the writer's class, and the classes cover the domain; constant relations that make the loop codecs inverse (UIntBase128, packed point numbers, packed deltas: flag/mask disjointness, chunk = mask+1, typecode per flag, value guard = typecode range); literal code tables injective and their inverses derived from the same table; scale/constant agreement of fixed-point helpers, eexec, timestamps, sstruct, tag<->identifier mangling.",
+    "design_ref": "DESIGN.md §3.1 F5/F6, §3.6 F22, §4 C15",
+    "note": "Trusted: CPython ast; sa/absint.py transfer functions (interval over +,-,*,<<,>>,&,| by constants, struct pack/unpack byte images); constant folder. Not decided: encodeFloat decimal formatting, shortest-representation minimality, eexec over all byte strings, behaviour inside a class away from the analysed expressions.",
+    "technique": "static analysis: interval abstract interpretation of writer/reader pairs, constant-relation checks, literal-table injectivity, sibling normal-form comparison",
+}
+
 _PENDING = "check not built yet in this round (planned structural clauses in DESIGN.md §4); not claimed until its check exists"
 NOT_APPLICABLE = {
     "C05": "numeric equality of outlines/advances with independent rasterisers at every location: runtime values only; no structural clause that is a necessary condition and survives refactoring (DESIGN §4 C05)",
@@ -16,5 +23,5 @@ NOT_APPLICABLE = {
     "C14": "geometric equality through pen adapters over all call sequences: adapters may legally buffer/merge/re-emit calls, so no forwarding-shape rule is both necessary and refactoring-stable (DESIGN §4 C14)",
     "C18": "rendering equivalence of merged fonts: only weak structural facts (first-writer-wins cmap guard) exist, not enough for a necessary-condition clause (DESIGN §4 C18)",
 }
-for _p in ("C01", "C02", "C03", "C04", "C06", "C07", "C08", "C10", "C11", "C12", "C13", "C15", "C16", "C17", "C19"):
+for _p in ("C01", "C02", "C03", "C04", "C06", "C07", "C08", "C10", "C11", "C12", "C13", "C16", "C17", "C19"):
     NOT_APPLICABLE[_p] = _PENDING
